@@ -295,10 +295,10 @@ func (fc *funcContext) translateExpr(expr ast.Expr) *expression {
 				return fc.formatExpr("new %1s(-%2h, -%2l)", fc.typeName(t), e.X)
 			case isComplex(basic):
 				return fc.formatExpr("new %1s(-%2r, -%2i)", fc.typeName(t), e.X)
-			case isUnsigned(basic):
+			case isInteger(basic):
 				return fc.fixNumber(fc.formatExpr("-%e", e.X), basic)
 			default:
-				return fc.formatExpr("-%e", e.X)
+				return fc.formatParenExpr("-%e", e.X)
 			}
 		case token.XOR:
 			if is64Bit(basic) {
